@@ -43,4 +43,15 @@ PROPS["C18"] = {
     "explanation": "codec model with parser combinators; dec (enc m ++ rest) = (m, rest)",
 }
 
+PROPS["C12"] = {
+    "proof_files": ["Proofs/Admit.v"],
+    "corr": ["C12"],
+    "trusted_base": ["tie to the code: CORRESPONDENCE - Model/Admit.v is hand-written; event histories are applied to a real SnapshotSender (stub transfer function, verifhook points at transfer launch/end) and queue, slots, statuses, launches and context liveness are compared with the model after every event"],
+    "assumptions": ["one event per method call of SnapshotSender (handlePeerJoined, handleManifestAccept, maybeStartTransfers, handlePeerLeft, tail of runTransfer, cleanup); 'running' = transfer function entered and not yet returned; a transfer whose context is cancelled is counted as stopping, not as running"],
+    "level_text": "Invariants of the admission bookkeeping proved for all event histories over any number of receivers and any max-receivers on an executable model that is compared step by step with the real SnapshotSender.",
+    "level_note": "Trusted: Coq kernel, harness/shims/hooks. Modelled not verified: the transfer function (abstract), signaling I/O, goroutine interleavings finer than method calls.",
+    "technique": "Coq invariant proofs over event histories + step-by-step correspondence with the real SnapshotSender",
+    "explanation": "state-machine model of admission control",
+}
+
 NOT_APPLICABLE = {}
